@@ -24,7 +24,7 @@ RULE = ('cases = (a, b, strict, presorted, b-field permutation, row container ty
         'duplicates exist on one side only. Distinct = SHA-1 of the case.')
 ASSUMPTIONS = ['rectangular tables with hashable cells (property domain)',
                'row equality is Python == on row tuples (1 == 1.0 == True)']
-REQUIRED = ['inputs-are-petl-views', 'data-row-equal-to-a-header', 'dup-only-in-a', 'dup-only-in-b', 'dup-both-different-counts', 'b-exhausted-first', 'a-exhausted-first',
+REQUIRED = ['views-read-twice', 'inputs-are-petl-views', 'data-row-equal-to-a-header', 'dup-only-in-a', 'dup-only-in-b', 'dup-both-different-counts', 'b-exhausted-first', 'a-exhausted-first',
             'strict-with-dup-in-a', 'a-empty', 'b-empty', 'presorted', 'permuted-b-header', 'list-vs-tuple-rows']
 EXHAUSTIVE = {'quick': False, 'thorough': False}
 
@@ -176,7 +176,7 @@ def judge(case, ctx):
         return a, b
 
     def check(name, build, exp_hdr, exp_counter, source_strict, order_of=None):
-        got = util.attempt_rows(build)
+        got = util.attempt_rows_twice(build)
         ctx.seen('executions')
         if isinstance(got, util.Raised):
             out.append({'kind': 'exception', 'fn': name, 'detail': got.text, 'where': got.where})
